@@ -42,6 +42,7 @@ ALPHABET = [
     ("   ", {}),
     ("  x  y \t z ", {}),
     ("ip address 10.1.2.3 255.255.255.0", {"ip": [2]}),
+    (" ip address 010.001.002.003 255.255.255.000 wildcard 0.0.0.063", {"ip": [2]}),
     (" ipv6 address 2001:db8::1/64 eui", {"ip": [2]}),
     ("password " + S1, {"pwd": [1]}),
     ("  snmp-server community " + S2 + " ro ", {"pwd": [2]}),
